@@ -69,6 +69,23 @@ Example ex_resumed_runs_out :
   /\ is_ok (step ex_fields {| header_buf := []; serial_counter := 4294967293 |} (OpSendResumed (ex_msg LE 0 None []) 1)) = true.
 Proof. vm_compute. auto. Qed.
 
+(* sends that are not completed keep their serial: dropped at zero bytes, force_finish after a partial
+   write, I/O error; preset and fresh; the next serials go on from there *)
+Example ex_abandoned :
+  exists c hb0 hb1 hb2 hb3, run_ops ex_fields [OpSend (ex_msg LE 0 None []); OpSendAbandoned (ex_msg LE 0 None []) DroppedAtZero; OpAlloc;
+                                          OpSendAbandoned (ex_msg BE 0 (Some 1) []) IoError; OpSendAbandoned (ex_msg LE 0 None [1]) ForceFinished; OpAlloc] conn_init
+    = Ok (c, [EvSent None 1 hb0; EvAbandoned None 2 hb1; EvAlloc 3; EvAbandoned (Some 1) 1 hb2; EvAbandoned None 4 hb3; EvAlloc 5])
+    /\ serial_counter c = 6.
+Proof. do 5 eexists. vm_compute. split; reflexivity. Qed.
+(* the end of the serial space reached by sends: 4294967294 is the last fresh serial, the next fresh send panics *)
+Example ex_sends_at_the_end :
+  alloc_many 4294967293 conn_init = Ok ({| header_buf := []; serial_counter := 4294967294 |}, 4294967293)
+  /\ (exists c hb hb2, run_ops ex_fields [OpSend (ex_msg LE 0 None []); OpSend (ex_msg LE 0 (Some 4294967295) [])]
+                     {| header_buf := []; serial_counter := 4294967294 |}
+                   = Ok (c, [EvSent None 4294967294 hb; EvSent (Some 4294967295) 4294967295 hb2]))
+  /\ run_ops ex_fields [OpSend (ex_msg LE 0 None []); OpSend (ex_msg LE 0 None [])] {| header_buf := []; serial_counter := 4294967294 |} = Panic
+  /\ alloc_many 4294967295 conn_init = Panic.
+Proof. vm_compute. repeat split; try reflexivity. do 3 eexists. reflexivity. Qed.
 (* a header field array above 2^26 bytes is refused (check_marshalled_array_len) *)
 Example ex_fields_too_long : check_marshalled_array_len (2^26) = Ok (2^26) /\ check_marshalled_array_len (2^26 + 1) = Err.
 Proof. vm_compute. auto. Qed.
@@ -92,6 +109,10 @@ Example ex_make_response :
   /\ dh_destination (msg_dyn (make_response ex_call)) = Some [58; 49; 46; 57]
   /\ msg_typ (make_response ex_call) = MReply.
 Proof. vm_compute. auto. Qed.
+Example ex_hello : hello_matches 7 (msg_dyn (make_response ex_call)) = false
+  /\ hello_matches 77 (msg_dyn (make_response ex_call)) = true /\ hello_matches 1 dh_default = false.
+Proof. vm_compute. auto. Qed.
+
 Example ex_unknown_method : exists r, unknown_method ex_call = Ok r
   /\ dh_response_serial (msg_dyn r) = Some 77 /\ dh_destination (msg_dyn r) = Some [58; 49; 46; 57]
   /\ msg_typ r = MError
